@@ -48,7 +48,7 @@ func (w *vWorld) vInvariant(key []byte, when string) {
 // VerifInductiveStep: ONE operation (create / update / delete with symbolic arguments, or a
 // compaction at a symbolic revision) from an ARBITRARY store state of one key that satisfies the
 // representation invariant (0..3 versions with symbolic revisions and values, deletion marks
-// anywhere but adjacent, the index record in each form the invariant allows, any compaction
+// anywhere but adjacent, next to a second live key, the index record in each form the invariant allows, any compaction
 // record): the operation's outcome agrees with the reference chain semantics, reads at every
 // revision from the floor up return the MVCC snapshot, and the invariant holds again — so the
 // write and read lemmas extend from the bounded histories to histories of any length.
@@ -61,7 +61,7 @@ func VerifInductiveStep() {
 	for i := 0; i < m; i++ {
 		tag := "v" + string(rune('0'+i))
 		r := zzverif.U64(tag + ".rev")
-		zzverif.Assume(zzverif.And(r > prev, r <= w.base))
+		zzverif.Assume(zzverif.And(r > prev, r < w.base))
 		prev = r
 		del := zzverif.Choose(tag+".del", 2) == 1
 		if del && prevDel {
@@ -86,6 +86,12 @@ func VerifInductiveStep() {
 			zzverif.Cover("index-absent-over-deletion-mark")
 		}
 	}
+	// a second, live key (one version at the highest revision) so that limited lists have a next key
+	other := vNames[3]
+	oval := zzverif.Bytes("other.val", 1)
+	w.s.RawPut(w.b.coder.EncodeObjectKey(other, w.base), oval)
+	w.s.RawPut(w.b.coder.EncodeRevisionKey(other), uint64ToBytes(w.base))
+	w.g.Append(other, w.base, oval, false)
 	if c := zzverif.U64("record"); c != 0 {
 		zzverif.Assume(c <= w.base)
 		w.s.RawPut(getCompactKey(vPrefix), uint64ToBytes(c))
@@ -114,6 +120,7 @@ func VerifInductiveStep() {
 	w.checkGet(key, r)
 	rg := vRanges[0]
 	w.checkList(rg[0], rg[1], r, 0)
+	w.checkList(rg[0], rg[1], r, 1+zzverif.Choose("limit", 2))
 	zzverif.Cover("done")
 }
 
